@@ -168,6 +168,12 @@ func (cr *checkRun) solveAll() {
 		}
 		finalizeQuery(o.Q)
 		todo = append(todo, o)
+		// maintainer aid: VCGO_DUMP=<substring of an obligation name> writes the full queries to $TMPDIR
+		if sub := os.Getenv("VCGO_DUMP"); sub != "" && strings.Contains(o.Name, sub) {
+			if text, ok := o.Q.smtText(false, ""); ok {
+				os.WriteFile(filepath.Join(os.TempDir(), fmt.Sprintf("vcgo_dump_%d.smt2", len(todo))), []byte("; "+o.Name+"\n"+text), 0644)
+			}
+		}
 	}
 	// stage 1: many queries per solver process, separated by (reset). A query with quantified
 	// assumptions is first tried on its quantifier-free relaxation (sound for unsat).
@@ -510,6 +516,22 @@ func runCheck(prop, tier string, writeBaseline, verbose bool, t0 time.Time) int 
 	cr.solveAll()
 	groups := groupObls(cr.obls)
 	cr.vacuityGuard(groups)
+	// a path of a function under contract that the engine had to abandon (construct outside the supported
+	// subset, specification that cannot be evaluated there) leaves obligations ungenerated: never silent
+	{
+		seenL := map[string]bool{}
+		for _, l := range cr.limits {
+			if seenL[l] {
+				continue
+			}
+			seenL[l] = true
+			fn := l
+			if i := strings.Index(l, ": "); i > 0 {
+				fn = l[:i]
+			}
+			groups = append(groups, &oblGroup{Name: fn + "#toolimit:" + strings.TrimSpace(strings.TrimPrefix(l, fn+":")), Kind: "toolimit", Status: "toolimit", Solver: "engine"})
+		}
+	}
 	// a channel declared never closed ('chan f open') that some function outside any contract closes:
 	// the assumption made at every receive from it is false - reported like a failed obligation
 	for _, w := range immutableWriters(cr.prog, cr.specs) {
@@ -584,7 +606,7 @@ func runCheck(prop, tier string, writeBaseline, verbose bool, t0 time.Time) int 
 			fmt.Println("  unclaimed:", u)
 		}
 		for _, l := range cr.limits {
-			fmt.Println("  tool limit:", l)
+			fmt.Println("  WARNING tool limit (paths of a function under contract were abandoned; fix before claiming):", l)
 		}
 		return 0
 	}
